@@ -737,6 +737,13 @@ _float8_e4m3fn = "float8_e4m3fn"
 _float8_e4m3fnuz = "float8_e4m3fnuz"
 _float8_e5m2 = "float8_e5m2"
 _float8_e5m2fnuz = "float8_e5m2fnuz"
+# Further low-precision floats from ml_dtypes (exposed in newer versions of JAX).
+_float8_e3m4 = "float8_e3m4"
+_float8_e4m3 = "float8_e4m3"
+_float8_e8m0fnu = "float8_e8m0fnu"
+_float6_e2m3fn = "float6_e2m3fn"
+_float6_e3m2fn = "float6_e3m2fn"
+_float4_e2m1fn = "float4_e2m1fn"
 _bfloat16 = "bfloat16"
 _float16 = "float16"
 _float32 = "float32"
@@ -792,7 +799,15 @@ float8 = [
     _float8_e5m2,
     _float8_e5m2fnuz,
 ]
-floats = float8 + [_bfloat16, _float16, _float32, _float64]
+small_floats = [
+    _float8_e3m4,
+    _float8_e4m3,
+    _float8_e8m0fnu,
+    _float6_e2m3fn,
+    _float6_e3m2fn,
+    _float4_e2m1fn,
+]
+floats = float8 + small_floats + [_bfloat16, _float16, _float32, _float64]
 complexes = [_complex64, _complex128]
 
 # We match NumPy's type hierarachy in what types to provide. See the diagram at
